@@ -2,8 +2,9 @@ CONSTANTS
   Mutant = "none"
   MaxLen = 2
   Family = "proto"
-  Deep = FALSE
-  Cases <- AllCases
-INIT Init
+  Deep = TRUE
+  Alpha = "full"
+  Cases <- Tables
+INIT MCInit
 NEXT NoNext
 INVARIANT ExportCase
